@@ -118,6 +118,12 @@ class TBRMatchedMarkets:
       geos_with_max_impact = list(
           self.geo_req_impact.sort_values(ascending=False).index)
       geos_in_order = list(geo for geo in geos_with_max_impact if geo in geos)
+      # Geos that must be included are never dropped by the truncation.
+      geos_must_include = self.geos_must_include
+      if len(geos_must_include) > n_geos_max:
+        raise ValueError('n_geos_max is smaller than the number of geos that '
+                         'must be included (%d)' % len(geos_must_include))
+      geos_in_order.sort(key=lambda geo: geo not in geos_must_include)
       geos = set(geos_in_order[:n_geos_max])
     return geos
 
